@@ -506,6 +506,27 @@ fn c05_oracle(r: &mut ImplRun, cur: &ConfigState, use_files: bool) -> (Vec<Reque
         }
         Err(e) => r.oracle.push(("encoding-fails:json".into(), e)),
     }
+    // (5) worker upgrade: the new worker is booted with the state, then `generate_activate_requests` is
+    // scattered to it (bin/src/command/upgrade.rs): applied to the same listeners, all inactive, the
+    // requests must be accepted and restore exactly the activation flags
+    let acts = cur.generate_activate_requests();
+    let mut inactive = cur.clone();
+    for l in inactive.http_listeners.values_mut() { l.active = false; }
+    for l in inactive.https_listeners.values_mut() { l.active = false; }
+    for l in inactive.tcp_listeners.values_mut() { l.active = false; }
+    for l in inactive.udp_listeners.values_mut() { l.active = false; }
+    let n_active = cur.http_listeners.values().filter(|l| l.active).count() + cur.https_listeners.values().filter(|l| l.active).count()
+        + cur.tcp_listeners.values().filter(|l| l.active).count() + cur.udp_listeners.values().filter(|l| l.active).count();
+    let mut rejected = vec![];
+    for q in &acts {
+        if let Err(e) = inactive.dispatch(q) {
+            rejected.push(format!("{}: {e}", cmd_words(pems(), q).join(" ")));
+        }
+    }
+    if !rejected.is_empty() || acts.len() != n_active || strip(&inactive) != strip(cur) {
+        r.oracle.push(("activate-requests-do-not-restore-activation".into(),
+            format!("{} requests for {} active listeners, rejected {:?}, maps differing afterwards {:?}", acts.len(), n_active, rejected, differing(&strip(&inactive), &strip(cur)))));
+    }
     let (s, rej) = replay_on_empty(&reqs);
     (reqs, s, rej.is_empty())
 }
